@@ -38,6 +38,13 @@ PASS_THROUGH = [
     ("secp256k1_schnorrsig_verify", "secp256k1_schnorrsig_challenge", "msg", "msg", {"C02"}),
     ("secp256k1_ec_pubkey_sort", "secp256k1_hsort", "n_pubkeys", "count", {"C04"}),
     ("secp256k1_ec_pubkey_sort", "secp256k1_hsort", "pubkeys", "ptr", {"C04"}),
+    # the host accepts exactly the signature it was given: no normalised / re-encoded copy reaches either verdict
+    ("secp256k1_anti_exfil_host_verify", "secp256k1_ecdsa_verify", "sig", "sig", {"C15"}),
+    ("secp256k1_anti_exfil_host_verify", "secp256k1_ecdsa_s2c_verify_commit", "sig", "sig", {"C15"}),
+    ("secp256k1_anti_exfil_host_verify", "secp256k1_ecdsa_verify", "msg32", "msghash32", {"C15"}),
+    ("secp256k1_anti_exfil_host_verify", "secp256k1_ecdsa_verify", "pubkey", "pubkey", {"C15"}),
+    ("secp256k1_anti_exfil_host_verify", "secp256k1_ecdsa_s2c_verify_commit", "host_data32", "data32", {"C15"}),
+    ("secp256k1_anti_exfil_host_verify", "secp256k1_ecdsa_s2c_verify_commit", "opening", "opening", {"C15"}),
 ]
 
 
